@@ -144,8 +144,10 @@ func mismatch(r *run.Rand, k kind, cli bool) string {
 	return val(r, []kind{kT, kT, kI, kF, kB, kW}[r.Intn(6)], cli)
 }
 
+// urfave/cli splits -d / -k values on commas and trims white space around
+// them; argv cannot carry NUL. (Flag parsing is not this property's business.)
 func cliSafe(s string) bool {
-	return !strings.ContainsAny(s, "\x00,") && !strings.HasPrefix(s, "-") && s == strings.ToValidUTF8(s, "?")
+	return !strings.ContainsAny(s, "\x00,") && !strings.HasPrefix(s, "-") && s == strings.ToValidUTF8(s, "?") && s == strings.TrimSpace(s)
 }
 
 // flavour: 0 typed, 1 all-empty (what the optimiser probes with), 2 some
